@@ -88,6 +88,11 @@ def perturbations(M):
         for n2 in (n + 1, n - 1, 30 if n == 31 else 31, 127 if n == 128 else 128):
             if n2 >= 0 and n2 != n:
                 alts.add((c, n2))
+        # every other number of the catalogue, and numbers that coincide with n in their low 5 / 7 / 8 / 14 / 32 bits
+        # (whatever packs class and number into one word, or keys a table by an identifier octet, collides there)
+        for n2 in list(NUMBERS) + [n ^ 32, n ^ 64, n ^ 128, n ^ 256, n + 2 ** 14, n + 2 ** 32, n % 32, n % 128]:
+            if n2 >= 0 and n2 != n:
+                alts.add((c, n2))
         for c2, n2 in sorted(alts):
             # rebuild the stack with level i replaced
             t2 = t
